@@ -204,7 +204,7 @@ def run(ctx):
      ctx.violation('R4', 'Stringifier.join_items:width', ji.where, f'JoinableStringList is built with {kw}'))
     fl = S.function('format_line')
     src = ast.unparse(fl.node)
-    ok = "line = str(self.join_items(items, sep=''))" in src and 'if no_wrap:' in src
+    ok = X.has(src, "line = str(self.join_items(items, sep=''))") and X.has(src, 'if no_wrap:')
     (ctx.judge('R4', 'format_line wraps unless no_wrap') if ok else
      ctx.violation('R4', 'Stringifier.format_line', fl.where, 'format_line does not route its items through join_items'))
     for mem in G.members.values():
